@@ -339,6 +339,24 @@ pub async fn run(cx: &mut Ctx) {
             );
             crate::run::set_crumb(Some(&r));
         }
+        // expected rows per table; with `compact_after` every table first gets one more row, so
+        // that it has two row-sets and the compactor reads (and would rewrite) the damaged one
+        let mut expected = original.clone();
+        if c.compact_after {
+            for n in &names {
+                let def = &model.tables[n].0;
+                let row = probe_row(def, ci as u64);
+                let ins = Stmt::Insert { table: n.clone(), cols: vec![], rows: vec![row.clone()] };
+                if db.exec(&ins.sql()).await.is_ok() {
+                    let e = expected.get_mut(n).unwrap();
+                    e.push(row);
+                    e.sort();
+                    cx.probe("insert-after-corruption");
+                }
+            }
+            // two compaction passes
+            advance(Duration::from_millis(2500)).await;
+        }
         // every table, three times (first read and repeated reads)
         let mut detected = false;
         'q: for round in 0..3 {
@@ -349,7 +367,7 @@ pub async fn run(cx: &mut Ctx) {
                     Outcome::Ok(rows) => {
                         let mut r = rows.clone();
                         r.sort();
-                        if r != original[n] {
+                        if r != expected[n] {
                             cx.violate(
                                 Violation::new(
                                     "C18",
@@ -357,7 +375,7 @@ pub async fn run(cx: &mut Ctx) {
                                     Some(ci),
                                     format!(
                                         "{label}: read #{round} of {n} returned Ok with {}",
-                                        multiset_diff(&r, &original[n]).unwrap_or_default()
+                                        multiset_diff(&r, &expected[n]).unwrap_or_default()
                                     ),
                                 )
                                 .with_sig(if round == 0 { "first-read" } else { "repeated-read" }),
